@@ -427,16 +427,24 @@ def sfind(e, s, k):
     return None
 
 
+def _rotation(e, obj, n):
+    """iteration order of a std HashMap/HashSet is unspecified: when e.map_rotation is set, each map object with
+    2..e.map_rotation_max entries gets one nondeterministic cyclic rotation per path (memoised per object)"""
+    if not getattr(e, 'map_rotation', False) or n < 2 or n > getattr(e, 'map_rotation_max', 3): return 0
+    memo = e.notes.setdefault('rotations', {})
+    key = id(obj)
+    if key not in memo or memo[key][0] != n:
+        memo[key] = (n, e.choose(n, 'map-rotation'), obj)
+    return memo[key][1]
+
+
 def map_order(e, m):
-    """iteration order of a HashMap: unspecified in std.  The executor uses insertion order rotated by a
-    per-path nondeterministic offset when e.map_rotation is enabled (harness option)."""
     items = list(m.items)
-    if getattr(e, 'map_rotation', False) and len(items) > 1 and m.kind.startswith('Hash'):
-        k = e.choose(len(items), 'map-rotation')
-        items = items[k:] + items[:k]
     if m.kind.startswith('BTree'):
         items.sort(key=lambda kv: _sort_key(kv[0]))
-    return items
+        return items
+    k = _rotation(e, m, len(items))
+    return items[k:] + items[:k]
 
 
 def _sort_key(k):
@@ -597,11 +605,10 @@ def _(e, c, a):
 
 def set_order(e, s):
     items = list(s.items)
-    if getattr(e, 'map_rotation', False) and len(items) > 1 and s.kind.startswith('Hash'):
-        k = e.choose(len(items), 'set-rotation')
-        items = items[k:] + items[:k]
-    if s.kind.startswith('BTree'): items.sort(key=_sort_key)
-    return items
+    if s.kind.startswith('BTree'):
+        items.sort(key=_sort_key); return items
+    k = _rotation(e, s, len(items))
+    return items[k:] + items[:k]
 
 
 @model(SET + r'iter$')
